@@ -320,6 +320,9 @@ func (g *gen) rawExpr(k kind, depth int, class string) string {
 				g.feat("member")
 				return []string{"obj.Name", "obj.Inner.Label", `m1["s"]`, "ss[0]", "obj.Tags[1]"}[g.intn("path", 0, 4)]
 			default:
+				if g.pct("randlit", 25) {
+					return fmt.Sprintf("%q", "w"+fmt.Sprint(g.intn("wn", 0, 9999)))
+				}
 				return strLits[g.intn("slit", 0, len(strLits)-1)]
 			}
 		}
@@ -369,7 +372,12 @@ func (g *gen) rawExpr(k kind, depth int, class string) string {
 			op := []string{"==", "!=", "<", "~="}[g.intn("op", 0, 3)]
 			g.feat("infix_strcmp")
 			if op == "~=" {
-				return g.operand(kStr, depth-1, "infix-left:~=") + ` ~= "^[a-z]"`
+				// varied patterns: a process-wide memo keyed by the pattern stays cold for new ones
+				pat := "^[a-" + string(rune('m'+g.intn("patc", 0, 13))) + "]"
+				if g.pct("patsfx", 50) {
+					pat += ".*" + fmt.Sprint(g.intn("patn", 0, 99)) + "?"
+				}
+				return g.operand(kStr, depth-1, "infix-left:~=") + ` ~= "` + pat + `"`
 			}
 			return g.operand(kStr, depth-1, "infix-left:"+op) + " " + op + " " + g.operand(kStr, depth-1, "infix-right:"+op)
 		case 3, 4:
